@@ -43,7 +43,28 @@ class _LockProxy:
         return getattr(self._l, n)
 
 
-def instrument(col, log, fault):
+class _TearStream:
+    """lets `left` more bytes reach the file, flushes them, then every write raises (a device that fills up / an I/O
+    error in the middle of a record)"""
+
+    def __init__(self, stream, left):
+        self._s, self._left = stream, left
+
+    def write(self, data):
+        if len(data) >= self._left:
+            if self._left > 0:
+                self._s.write(bytes(data[:self._left]))
+                self._s.flush()
+            self._left = 0
+            raise Injected("flush-torn")
+        self._left -= len(data)
+        return self._s.write(data)
+
+    def __getattr__(self, name):
+        return getattr(self._s, name)
+
+
+def instrument(col, log, fault, tear=0):
     """wrap the backend of `col` (instance-level patches only; the repo is untouched)"""
     b = col._backend
     if not isinstance(b._lock, _LockProxy):
@@ -83,6 +104,10 @@ def instrument(col, log, fault):
         if fault == "atFlush" and not fired["flush"]:
             fired["flush"] = True
             raise Injected("flush")
+        if fault == "atFlushTorn" and not fired["flush"]:
+            # the first backend write of the flush gets `tear` bytes of its record into the file and then fails
+            fired["flush"] = True
+            b._ukvfile._stream = _TearStream(b._ukvfile._stream, tear)
         cls._write(b, key, value)
 
     b.begin_read = begin(cls.begin_read)
@@ -94,10 +119,10 @@ def instrument(col, log, fault):
     b._write = write
 
 
-def run_session(col, kind, fault, puts, cut=1, reads=(), in_body=None):
+def run_session(col, kind, fault, puts, cut=1, reads=(), in_body=None, tear=0):
     """run one instrumented session; returns dict(trace, exc, listed_at_start, read_values)"""
     log: list = []
-    instrument(col, log, fault)
+    instrument(col, log, fault, tear)
     out = {"exc": None, "listed": None, "reads": {}}
     try:
         cm = col.writing(timeout=5) if kind == "writing" else col.reading(timeout=5)
